@@ -90,10 +90,15 @@ CLAIMED = {
             "reduction, marker validation iterates the reduced tree; bounded: drop_level / flatten runs equal runs on "
             "the reduced reference, absent level is a no-op",
             "equality of whole runs is a bounded (execution-level) clause; floats to 1e-9"),
-    'C18': ("proved: writer/reader interface facts of the stages that are pure (work split, cluster->row, leaf "
-            "means slices); bounded: stages compose and centroid queries map to themselves with probability 1 and "
-            "correlation 1",
-            "centroid clause is numerical: bounded only (1e-6); Pearson facts not proved in this build"),
+    'C18': ("proved: the writer/reader interface of the statistics file by name - the buffer row of a cell is the row "
+            "the file's own cluster_to_row table gives its cluster (_precompute...#split), read_raw_precomputed_stats "
+            "returns row cluster_to_row[leaf] of every stored matrix and the file's gene names, aggregate_stats / "
+            "read_precomputed_stats give mean = sum/max(1,n) under the key level/node, get_leaf_means returns the "
+            "centroid of the cluster named cell_identifiers[i] with genes in file order, create_raw_marker_gene_lookup "
+            "keys the marker table by the same level/node naming; bounded: stages compose on generated worlds and "
+            "centroid queries map to themselves with probability 1 and correlation 1",
+            "centroid clause is numerical: bounded only (1e-6); HDF5/JSON decoding modelled as a record of decoded "
+            "datasets (A-STATSFILE, A-JSON); _prep_output_file bounded; assumes no level/node name contains '/' (A-GRP)"),
     'C19': ("proved: run_mapping leaves no scratch entry it created on every exit path, normal or exceptional "
             "(scratch ghost state, A-TMP); bounded: input hashes, directory snapshots, stale files, concurrent runs "
             "for every stage",
@@ -107,7 +112,7 @@ CLAIMED = {
 }
 
 # properties whose deciding clauses are executions (bounded stand-in), with only supporting facts proved
-CATEGORY = {'C15': 'exploration', 'C18': 'exploration'}
+CATEGORY = {'C15': 'exploration'}
 REFS = {p: f"DESIGN.md section 4 {p}" for p in CLAIMED}
 NOT_APPLICABLE = {}
 
